@@ -28,7 +28,7 @@ var sqlQuick = []Mix{
 	{Gen: "novel", Dict: "sqlext", N: 150000},
 	{Gen: "wl", N: 100000},
 	{Gen: "longtok", N: 20000},
-	{Gen: "seam"}, {Gen: "nulpad"}, {Gen: "wrapcount"}, {Gen: "foldalias"}, {Gen: "qualified"}, {Gen: "gluelit"}, {Gen: "encatk"}, {Gen: "dialect"}, {Gen: "prose"}, {Gen: "doubled"},
+	{Gen: "seam"}, {Gen: "nulpad"}, {Gen: "wrapcount"}, {Gen: "foldalias"}, {Gen: "qualified"}, {Gen: "gluelit"}, {Gen: "encatk"}, {Gen: "dialect"}, {Gen: "prose"}, {Gen: "doubled"}, {Gen: "toktails"},
 	{Gen: "scale1", N: 288 << 10},
 }
 
@@ -43,7 +43,7 @@ var sqlThorough = []Mix{
 	{Gen: "novel", Dict: "sqlext", N: 2000000},
 	{Gen: "wl", N: 1500000},
 	{Gen: "longtok", N: 300000},
-	{Gen: "seam", N: 1}, {Gen: "nulpad"}, {Gen: "wrapcount"}, {Gen: "foldalias"}, {Gen: "qualified"}, {Gen: "gluelit"}, {Gen: "encatk"}, {Gen: "dialect"}, {Gen: "prose"}, {Gen: "doubled"},
+	{Gen: "seam", N: 1}, {Gen: "nulpad"}, {Gen: "wrapcount"}, {Gen: "foldalias"}, {Gen: "qualified"}, {Gen: "gluelit"}, {Gen: "encatk"}, {Gen: "dialect"}, {Gen: "prose"}, {Gen: "doubled"}, {Gen: "toktails"},
 	{Gen: "scale1", N: 288 << 10}, {Gen: "scale", N: 70000},
 }
 
@@ -360,7 +360,7 @@ var c08Quick = []Mix{
 	{Gen: "wl", N: 200000},
 	{Gen: "g03", N: 150000},
 	{Gen: "scale1", N: 288 << 10},
-	{Gen: "seam"}, {Gen: "wrapcount"}, {Gen: "foldalias"}, {Gen: "qualified"}, {Gen: "gluelit"}, {Gen: "encatk"}, {Gen: "dialect"}, {Gen: "prose"}, {Gen: "doubled"}, {Gen: "giant"},
+	{Gen: "seam"}, {Gen: "wrapcount"}, {Gen: "foldalias"}, {Gen: "qualified"}, {Gen: "gluelit"}, {Gen: "encatk"}, {Gen: "dialect"}, {Gen: "prose"}, {Gen: "doubled"}, {Gen: "toktails"}, {Gen: "giant"},
 }
 var c08Thorough = []Mix{
 	{Gen: "corpus"}, {Gen: "trunc"}, {Gen: "bytes"}, {Gen: "padded", N: 1},
@@ -373,7 +373,7 @@ var c08Thorough = []Mix{
 	{Gen: "wl", N: 2000000},
 	{Gen: "g03", N: 2000000},
 	{Gen: "scale1", N: 288 << 10}, {Gen: "scale", N: 70000},
-	{Gen: "seam", N: 1}, {Gen: "wrapcount"}, {Gen: "foldalias"}, {Gen: "qualified"}, {Gen: "gluelit"}, {Gen: "encatk"}, {Gen: "dialect"}, {Gen: "prose"}, {Gen: "doubled"}, {Gen: "giant", N: 1},
+	{Gen: "seam", N: 1}, {Gen: "wrapcount"}, {Gen: "foldalias"}, {Gen: "qualified"}, {Gen: "gluelit"}, {Gen: "encatk"}, {Gen: "dialect"}, {Gen: "prose"}, {Gen: "doubled"}, {Gen: "toktails"}, {Gen: "giant", N: 1},
 }
 
 // C08 — verdict and fingerprint are mutually consistent.
